@@ -10,7 +10,8 @@ CONSTANTS D,          \* neighbourhood of each power of two
           Full16,     \* all 16-bit values of the 16-bit types
           StrLen,     \* maximal string length
           FullLen,    \* byte strings over the full alphabet up to this length
-          RepLen      \* byte strings over the representative alphabet up to this length
+          RepLen,     \* byte strings over the representative alphabet up to this length
+          Big         \* container sizes around the width steps of the size prefix (31|32, 63|64, ...)
 
 VARIABLES mode, ty, val, bs
 vars == <<mode, ty, val, bs>>
@@ -59,6 +60,22 @@ Values(name) ==
 
 EncodableNames == TypeNames \ {"tagged"}
 
+\* containers whose size lies at a step of the size prefix (one byte holds 0..63, two bytes 64..16383; a prefix read or
+\* written as a signed number changes at 32 and 8192): the elements are cheap, the count is the point
+BigNames == {"seq_u8", "seq_bool", "string", "seq_string", "dict_u8_u8", "hdict_u8_u8", "dict_string_bool", "seq_seq_u8"}
+BigValues(name, n) ==
+  CASE name = "seq_u8" -> {[i \in 1..n |-> U8(i % 256)]}
+    [] name = "seq_bool" -> {[i \in 1..n |-> i % 2 = 0]}
+    [] name = "string" -> {[i \in 1..n |-> 97 + (i % 26)], [i \in 1..n |-> IF i % 7 = 0 THEN 8364 ELSE 65 + (i % 26)]}
+    [] name = "seq_string" -> {[i \in 1..n |-> IF i % 2 = 0 THEN <<>> ELSE <<65>>]}
+    [] name = "seq_seq_u8" -> {[i \in 1..n |-> IF i % 3 = 0 THEN <<U8(i % 256)>> ELSE <<>>]}
+    [] name \in {"dict_u8_u8", "hdict_u8_u8"} -> {[i \in 1..n |-> [k |-> U8(i - 1), v |-> U8(i % 3)]]}
+    [] name = "dict_string_bool" -> {[i \in 1..n |-> [k |-> <<64 + i>>, v |-> i % 2 = 0]]}
+InitBigValues == /\ mode = "value"
+                 /\ ty \in BigNames
+                 /\ \E n \in Big : val \in BigValues(ty, n)
+                 /\ bs = <<>>
+
 InitValues == /\ mode = "value"
               /\ ty \in EncodableNames
               /\ val \in Values(ty)
@@ -80,6 +97,14 @@ InitMut == /\ mode = "bytes"
            /\ val = 0
            /\ \E v \in Values(ty) : LET e == Enc(T0(ty), v) IN
                                       e.ok /\ bs \in Truncations(e.bytes) \cup Substitutions(e.bytes)
+
+\* the same for the big containers: a defect anywhere in a long element list (a check that covers only part of it) shows
+BigSubst == {0, 128, 191, 255}
+InitBigMut == /\ mode = "bytes"
+              /\ ty \in BigNames
+              /\ val = 0
+              /\ \E n \in Big : \E v \in BigValues(ty, n) : LET e == Enc(T0(ty), v) IN
+                    e.ok /\ bs \in Truncations(e.bytes) \cup {[e.bytes EXCEPT ![i] = b] : i \in 1..Len(e.bytes), b \in BigSubst}
 
 \* sizes the input merely announces: a container whose count / length prefix is 2^k, followed by 0..2 bytes
 Containers == {n \in TypeNames : TypeOf(n).k \in {"string", "seq", "dict"}}
